@@ -23,7 +23,7 @@ PROPERTY = "C13"
 LEVEL = "exploration"
 RULE = (
     "reader cases = (rows n, reader kind incl. Parquet row-group size, chunk size, requested columns), "
-    "complete product; non-trivial iff the table is delivered in >= 2 chunks (chunk < n). "
+    "complete product, all requests of one (n, kind) issued in sequence against the SAME reader object; non-trivial iff the table is delivered in >= 2 chunks (chunk < n). "
     "writer cases = (format, buffer size, buffer kind, sequence of append sizes, protocol, payload form), "
     "complete product over every composition of n rows with <= Z empty appends; non-trivial iff n >= 2 and "
     "(>= 2 non-empty appends or a buffer is in use). Distinct by the full case tuple."
@@ -46,8 +46,9 @@ PA = {"i": pa.int64(), "f": pa.float64(), "s": pa.string(), "b": pa.bool_()}
 PD = {"i": "int64", "f": "float64", "s": "str", "b": "bool"}
 MAP = {"i": "I", "s": "S"}
 LEFT, RIGHT = ["i", "s"], ["f", "b"]
+SWAP = {"i": "s", "s": "i"}  # a map that swaps two names: applying it twice is not idempotent
 OTHER_KINDS = [
-    "tab", "csv", "frame", "mapped:tab", "mapped:parquet2",
+    "tab", "csv", "frame", "mapped:tab", "mapped:parquet2", "mapped:frame", "swapped:frame", "swapped:tab",
     "joined:tab+parquet2", "joined:parquet3+frame", "joined:frame+csv",
     "computed:tab", "computed:parquet2", "computed:frame",
 ]
@@ -81,9 +82,15 @@ def build(kind, n, d):
     base, _, arg = kind.partition(":")
     if not arg:
         return source(kind, "t", T.COLS, rows, d), T.COLS, lambda want: T.project(rows, want)
-    if base == "mapped":
-        cols = [MAP.get(c, c) for c in T.COLS]
-        return source(arg, "t", T.COLS, rows, d, column_map=MAP), cols, lambda want: T.project(rows, want, cols)
+    if base in ("mapped", "swapped"):
+        from mokapot.tabular_data import ColumnMappedReader
+
+        m = MAP if base == "mapped" else SWAP
+        cols = [m.get(c, c) for c in T.COLS]
+        src = source(arg, "t", T.COLS, rows, d, column_map=None if arg == "frame" else m)
+        if arg == "frame":  # column-renamed reader over an in-memory frame
+            src = ColumnMappedReader(src, m)
+        return src, cols, lambda want: T.project(rows, want, cols)
     if base == "joined":
         a, b = arg.split("+")
         rd = JoinedTabularDataReader([
@@ -284,8 +291,10 @@ def run(ctx):
 
 def check_case(case, acc, d):
     if case["part"] == "reader":
-        reader, cols, ref = build(case["kind"], case["n"], d)
-        check_reader(reader, cols, ref, case, acc)
+        # one reader object serves the whole request sequence of its (rows, kind) item - replay that history
+        a = reader_worker((case["n"], case["kind"], 3, case["n"] + 1))
+        for v in a.violations:
+            acc.violation(v)
     else:
         check_writer(case, acc, d)
 
